@@ -38,6 +38,7 @@ Definition e_dupkey : N := 4.   (* mergeMap: duplicated key                     
 Definition e_nokey  : N := 5.   (* cannot find input key                             *)
 Definition e_branch : N := 6.   (* branch returned an unknown end node               *)
 Definition e_node   : N := 7.   (* a node chosen to fail                             *)
+Definition e_fuel   : N := 8.   (* the model's loop bound was exhausted (excluded by dom_ok) *)
 
 (* the values a reader delivers before the first error item; the error if there is one *)
 Fixpoint vals_of {X} (s : stream X) : res (list X) :=
